@@ -4,6 +4,7 @@ Part "enum"  roots x (absolute / drive-like prefix) x separator style x every li
              adversarial alphabet ('..', '.', '', names, '...', '~root', '%2e%2e'): finite, enumerated.
 Part "url"   names the router hands to a handler: the :p* / :p+ capture of Router.getRoute for enumerated URLs
              under /static (doubled slashes, backslashes, dot segments), joined onto every root.
+Part "rooted" absolute names spelled from the root itself (the root, root + '2', its parent, a prefix of it).
 Part "text"  Hypothesis: unicode names / segment lists with unusual characters and look-alike separators,
              more roots.
 
@@ -27,7 +28,9 @@ RULE = ("enum: name = prefix + sep.join(segs); segs = every list of 0..6 (quick 
         "that length), so counted (root, name) pairs are distinct by construction. "
         "url: URL = '/static' + ''.join('/' + s) over 0..5 segments of {'..', '.', '', 'etc', 'a', '%2e%2e', '\\', "
         "'\\etc', '..\\..'} with/without trailing slash, captured by Router.getRoute for /static/:p* and /static/:p+, "
-        "capture joined onto each root; non-trivial = capture beginning with a separator or holding a dot segment or "
+        "capture joined onto each root; rooted: absolute names built from each root's own directory string (the root, "
+        "root + suffix such as '2/a', its parent, the root minus its last character; '/' or '\\' spelling) for 13 roots. "
+        "url non-trivial = capture beginning with a separator or holding a dot segment or "
         "backslash. text: Hypothesis names (unicode text, segment lists mixing the alphabet with drawn text, look-alike "
         "separators) x 13 roots; non-trivial as for enum, distinct by (root, name).")
 ASSUMPTIONS = [
@@ -154,6 +157,40 @@ def run_enum(spec, ctx):
                            % (spec["kmax_all"], SEGS))
 
 
+# ------------------------------------------------------------------ part "rooted"
+ROOTED_SUFFIXES = ["", "/", "2", "2/a", "-old/a", "/a", "/a/", ".bak", "x/..a", " ", "/..a", "/...", "\\a", "2\\a", "/a//b", "//a"]
+
+
+def rooted_names(root):
+    """absolute names spelled from the root itself: the root, its siblings (root + '2'), its parent, a prefix of it"""
+    out = []
+    for r in rootinfo(root).dirs:
+        bases = [r, r.rstrip("/"), os.path.dirname(r), r[:-1], r + "/", "/" + r]
+        for base in bases:
+            for b in (base, base.replace("/", "\\")):
+                for suf in ROOTED_SUFFIXES:
+                    name = b + suf
+                    if name not in out:
+                        out.append(name)
+    return out
+
+
+def run_rooted(spec, ctx):
+    evals = nt = refused = 0
+    for root in ROOTS + MORE_ROOTS:
+        for name in rooted_names(root):
+            if check_one(ctx, root, name, {"part": "name", "root": root, "name": name}) == "refused":
+                refused += 1
+            evals += 1
+            if is_nontrivial(name):
+                nt += 1
+    ctx.evaluations += evals
+    ctx.nt_enum += nt
+    ctx.label("rooted-evaluated", evals)
+    ctx.label("rooted-refused-ValueError", refused)
+    ctx.sample({"part": "rooted", "example": {"root": "/srv/www", "names": ["/srv/www2/a", "/srv/www", "\\srv\\www-old/a", "/srv/ww/a"]}})
+
+
 # ------------------------------------------------------------------ part "url"
 class Captures(object):
     def __init__(self):
@@ -226,17 +263,28 @@ ODD = ["\u2215", "\u2044", "\uff0f", "\uff0e\uff0e", "\u2024\u2024", "\u202e", "
 
 
 @st.composite
-def names(draw):
-    kind = draw(st.integers(0, 3))
+def root_and_name(draw, roots):
+    root = draw(st.sampled_from(roots))
+    kind = draw(st.integers(0, 4))
     if kind == 0:
-        return draw(st.text(max_size=24))
+        return root, draw(st.text(max_size=24))
     if kind == 1:
         alphabet = st.sampled_from(["/", "\\", ".", ".", "a", "b", ":", " ", "~", "%", "\u2215", "\uff0e", "\x00", "C"])
-        return "".join(draw(st.lists(alphabet, max_size=16)))
+        return root, "".join(draw(st.lists(alphabet, max_size=16)))
     seg = st.one_of(st.sampled_from(ODD), st.sampled_from(SEGS), st.text(max_size=5))
-    segs = draw(st.lists(seg, max_size=7))
     sep = st.sampled_from(["/", "/", "/", "\\", "\\", "//", "\\\\", "/\\", "\\/", "/./", "/../", "\u2215"])
-    prefix = draw(st.one_of(st.sampled_from(PREFIXES), st.sampled_from(["\\\\?\\", "\\\\host\\share\\", "file://", "file:///", "~/", "~root/", "./", "../", " /", "\t/"])))
+    if kind == 4:
+        # an absolute name spelled from the root directory itself (the root, a sibling, the parent, ...)
+        base = draw(st.sampled_from(rootinfo(root).dirs))
+        cut = draw(st.sampled_from([0, 0, 0, 1, 2]))
+        base = base[:len(base) - cut] if cut else base
+        if draw(st.booleans()):
+            base = base.replace("/", "\\")
+        prefix = base + draw(st.one_of(st.sampled_from(["", "/", "2", "2/", "-old/", ".bak/", " ", "x", "\\", "/a/"]), st.text(max_size=3)))
+    else:
+        prefix = draw(st.one_of(st.sampled_from(PREFIXES), st.sampled_from(
+            ["\\\\?\\", "\\\\host\\share\\", "file://", "file:///", "~/", "~root/", "./", "../", " /", "\t/"])))
+    segs = draw(st.lists(seg, max_size=7 if kind != 4 else 3))
     out = [prefix]
     for j, s in enumerate(segs):
         if j:
@@ -244,7 +292,7 @@ def names(draw):
         out.append(s)
     if draw(st.integers(0, 4)) == 0:
         out.append(draw(sep))
-    return "".join(out)
+    return root, "".join(out)
 
 
 def run_text(spec, ctx):
@@ -254,8 +302,9 @@ def run_text(spec, ctx):
             ctx.inconclusive += 1
             break
 
-        @ctx.given(spec["n"], st.sampled_from(roots), names(), salt="%s/%s" % (spec.get("i", 0), batch))
-        def test(root, name):
+        @ctx.given(spec["n"], root_and_name(roots), salt="%s/%s" % (spec.get("i", 0), batch))
+        def test(rn):
+            root, name = rn
             if ctx.out_of_time():
                 return
             case = {"part": "name", "root": root, "name": name}
@@ -278,6 +327,7 @@ def plan(tier):
     if tier == "quick":
         for i in range(10):
             specs.append({"part": "enum", "i": i, "n": 10, "kmin": 0, "kmax": 5, "kmax_all": 5})
+        specs.append({"part": "rooted"})
         for i in range(2):
             specs.append({"part": "url", "i": i, "n": 2, "kmax": 4, "kmax_all": 4})
         for i in range(4):
@@ -285,6 +335,7 @@ def plan(tier):
     else:
         for i in range(32):
             specs.append({"part": "enum", "i": i, "n": 32, "kmin": 0, "kmax": 6, "kmax_all": 6})
+        specs.append({"part": "rooted"})
         for i in range(4):
             specs.append({"part": "url", "i": i, "n": 4, "kmax": 5, "kmax_all": 5})
         for i in range(16):
@@ -300,6 +351,8 @@ def run_shard(spec, ctx):
         run_url(spec, ctx)
     elif part == "text":
         run_text(spec, ctx)
+    elif part == "rooted":
+        run_rooted(spec, ctx)
     else:
         raise ValueError("unknown part %r" % part)
 
